@@ -182,7 +182,7 @@ const (
 	//   0123456789abcdef0123456789abcdef
 	intMode = "" +
 		".........II..I.................." + // 0x00
-		"I.......II.a.a..aaaaaaaaaa......" + // 0x20
+		"I.......II.a.a.aaaaaaaaaaa......" + // 0x20
 		".aaaaaaaaaaaaaaaaaaaaaaaaaa....." + // 0x40
 		".aaaaaaaaaaaaaaaaaaaaaaaaaa......" + // 0x60
 		"................................" + // 0x80
@@ -1103,7 +1103,19 @@ func (r *reader) pushChar(src []byte) {
 func (r *reader) pushInteger(src []byte) {
 	token := string(r.makeToken(src))
 	var obj Object
-	if i, err := strconv.ParseInt(token, r.base, 64); err == nil {
+	if i := strings.IndexByte(token, '/'); 0 < i {
+		// A ratio in the radix of the prefix as in #x1/f.
+		var (
+			num big.Int
+			den big.Int
+		)
+		_, nok := num.SetString(token[:i], r.base)
+		_, dok := den.SetString(token[i+1:], r.base)
+		if !nok || !dok || den.Sign() <= 0 {
+			r.raise("%s is not a valid base %d ratio", token, r.base)
+		}
+		obj = NewBigRatio(&num, &den)
+	} else if i, err := strconv.ParseInt(token, r.base, 64); err == nil {
 		obj = Fixnum(i)
 	} else {
 		bi := big.NewInt(0)
